@@ -39,7 +39,7 @@ ASSUMPTIONS = [
 ]
 MUST_REACH = {"valid_out_delivered": 300, "valid_in_delivered": 300, "garbage_datagrams": 300, "templates_covered": 300,
               "discard_random": 20, "discard_truncated": 20, "discard_unknown_host": 10, "discard_unregistered_circuit": 10,
-              "discard_banned": 5, "discard_bad_socks": 20, "discard_presession": 5, "reopened_circuits": 3,
+              "discard_banned": 5, "discard_bad_socks": 20, "discard_presession": 5, "reopened_circuits": 3, "closing_messages_checked": 3,
               "same_ip_sequences": 2, "multi_region_deliveries": 50}
 
 _es = Settings()
@@ -177,11 +177,18 @@ def _run_sequence(ctx, rng, rig, seq_seed, same_ip):
     last_was_garbage = False
     n_events = rng.randint(120, 300)
 
-    def deliver_valid(assoc_idx, circ, direction_in):
+    def deliver_valid(assoc_idx, circ, direction_in, prepared_name=None):
         nonlocal last_was_garbage
         a = assocs[assoc_idx]
         pid = circ.in_id if direction_in else circ.out_id
-        name, data, msg = make_valid(rng, templates, direction_in, pid)
+        if prepared_name is None:
+            name, data, msg = make_valid(rng, templates, direction_in, pid)
+        else:
+            # a message with a side effect on the circuit (CloseCircuit / DisableSimulator): the circuit is open when it
+            # arrives, so it has to be forwarded like any other datagram
+            name, data = prepared_name, simple_msg(prepared_name, pid)
+            msg = decode(data)
+            ctx.count("closing_messages_checked")
         if direction_in:
             circ.in_id += 1
         else:
@@ -373,7 +380,10 @@ def _run_sequence(ctx, rng, rig, seq_seed, same_ip):
             if c.open and sum(1 for x in circuits if x.open and x.sess_idx == c.sess_idx) > 1 or rng.random() < 0.3:
                 name = rng.choice(["CloseCircuit", "DisableSimulator"])
                 a = assocs[c.sess_idx]
-                if name == "CloseCircuit" and rng.random() < 0.5:
+                from_viewer = name == "CloseCircuit" and rng.random() < 0.5
+                if c.open:
+                    deliver_valid(c.sess_idx, c, not from_viewer, prepared_name=name)
+                elif from_viewer:
                     a.from_viewer(c.addr, simple_msg(name, c.out_id))
                     c.out_id += 1
                 else:
